@@ -144,6 +144,10 @@ def replay_tamper(E, nranges):
         return bytes(b for p, b in enumerate(d) if not any(l > 0 and s <= p < s + l for s, l in rs))
     r = E.native("data_hash_tamper", [mi["original"], mi["received"], rs])
     same = sel(d0) == sel(d1)
+    if r["gen_ok"] and (same == bool(r["verify_ok"])):
+        # the public DataHash API uses the production buffer size (256 MiB); the solver's input also fixes the routine's internal
+        # buffer size, so run the real routine with that size through the hook and apply the real vec_compare to the two digests
+        r = E.native("data_hash_tamper_chunked", [mi["original"], mi["received"], rs, int(mi.get("max_hash_buf", 1))])
     E.prove("generating the hash over the original succeeds unless nothing is bound", z3.BoolVal(len(sel(d0)) == 0 or r["gen_ok"]))
     E.prove("a change to any bound byte is reported (verification fails)", z3.BoolVal((not r["gen_ok"]) or same or not r["verify_ok"]))
     E.prove("unchanged bound content verifies, whatever happens inside the exclusions", z3.BoolVal((not r["gen_ok"]) or (not same) or r["verify_ok"]))
